@@ -520,8 +520,37 @@ def const_pair(rnd):
     k = rnd.random()
     if k < 0.2:
         return ("neg", t)
-    if k < 0.4 and op in ("add", "mul"):
-        return (op, a, (op, b, rtree(rnd, 1)))
+    if k < 0.45:
+        op2 = op if rnd.random() < 0.7 else rnd.choice(["add", "sub", "mul", "div", "pow"])
+        return (op, a, (op2, b, rtree(rnd, 1)))
+    if k < 0.55:
+        return (op, a, (op, (op, b, rtree(rnd, 1)), rtree(rnd, 1)))
+    return t
+
+
+def perturb(rnd, t, n=1):
+    """near-miss generator: change the operator kind of a binary node, swap a unary kind, or replace a leaf by another
+    leaf class (constant <-> variable, zero / negative / fractional constant) at n random positions."""
+    for _ in range(n):
+        paths = sx_inorder(t)
+        p = rnd.choice(paths)
+
+        def go(node, path):
+            if not path:
+                k = node[0]
+                if k in BIN:
+                    return (rnd.choice([x for x in ("add", "sub", "mul", "div", "pow") if x != k]), node[1], node[2])
+                if k in UN:
+                    return (rnd.choice(["neg", "sgn"]), node[1]) if k != "fact" else node
+                if k == "c":
+                    return rnd.choice([V(rnd.choice("xyz")), C(0), C(-2), Cf(1, 2), C(1), Cf(-3, 2)])
+                return rnd.choice([C(rnd.choice([0, 1, 2, -1, 5])), V(rnd.choice("xyz"))])
+            if node[0] in UN:
+                return (node[0], go(node[1], path[1:]))
+            if path[0] == "L":
+                return (node[0], go(node[1], path[1:]), node[2])
+            return (node[0], node[1], go(node[2], path[1:]))
+        t = go(t, p)
     return t
 
 
